@@ -376,9 +376,15 @@ fn eval_inner(case: &Case, clock: &Clock, ex: &mut Exec, age: &mut u64) -> Verdi
         }
         peer_ts = peer_ts.wrapping_add(11);
         let at = format!("op {} {:?} (model state {:?}{})", idx, op, model.st, if model.unspecified { ", unspecified" } else { "" });
-        let other_stream = |m: &Model| m.active.map(|a| a + 3).unwrap_or(9);
+        // a stream other than the active one: three choices by position, among them message stream 0
+        // (the control stream; "no active stream" must not behave like "active on stream 0") and 1
+        let other_stream = |m: &Model| {
+            let cands = [m.active.map(|a| a + 3).unwrap_or(9), 0, 1];
+            let c = cands[idx % 3];
+            if Some(c) == m.active { cands[0] } else { c }
+        };
         // with no active stream, 'the active stream' means the one that was active before the stop
-        let active_or = |m: &Model| m.active.or(m.last_active).unwrap_or(5);
+        let active_or = |m: &Model| m.active.or(m.last_active).unwrap_or([5, 0, 1][idx % 3]);
         let concrete = match op {
             COp::RequestConnection { app } => Concrete::RequestConnection(["live", "app/inst", "x"][*app as usize % 3].to_string()),
             COp::RequestPlayback { key } => Concrete::RequestPlayback(key_str(*key % 3)),
